@@ -389,7 +389,44 @@ func c09R2(c *Ctx, rule string) {
 		}
 	}
 	if goWeb == nil {
-		c.Bad(rule, "redirect closure", c.atFn(dc), "no closure of dispatchConnection dials the redirect target")
+		// the redirect written in line (a helper function expanded at every rejection site): each dial of the redirect
+		// target in dispatchConnection itself is one redirect — same two obligations per dial
+		dials := callsInvoke(dc, "Dial")
+		if len(dials) == 0 {
+			c.Bad(rule, "redirect closure", c.atFn(dc), "no closure of dispatchConnection dials the redirect target")
+			return
+		}
+		okWriteAll, okCopiesAll := true, true
+		for _, d := range dials {
+			webConn := extractOf(d, 0)
+			var wr *ssa.Call
+			var copies []*ssa.Go
+			allInstrs(dc, func(i ssa.Instruction) {
+				if call, ok := i.(*ssa.Call); ok && calleeName(&call.Call) == "(net.Conn).Write" && webConn != nil && call.Call.Value == webConn {
+					wr = call
+				}
+				if g, ok := i.(*ssa.Go); ok && strings.HasSuffix(calleeName(&g.Call), "common.Copy") && webConn != nil {
+					for _, a := range g.Call.Args {
+						if stripConv(a) == webConn {
+							copies = append(copies, g)
+						}
+					}
+				}
+			})
+			if wr == nil || data == nil || stripConv(wr.Call.Args[0]) != ssa.Value(data) {
+				okWriteAll = false
+			}
+			okc := len(copies) == 2 && wr != nil
+			if okc {
+				a0, a1 := copies[0].Call.Args, copies[1].Call.Args
+				okc = sameValueOrLoad(stripConv(a0[0]), stripConv(a1[1])) && sameValueOrLoad(stripConv(a0[1]), stripConv(a1[0])) && !sameValueOrLoad(stripConv(a0[0]), stripConv(a0[1])) && instrDominates(wr, copies[0]) && instrDominates(wr, copies[1])
+			}
+			if !okc {
+				okCopiesAll = false
+			}
+		}
+		c.Check(okWriteAll, rule, "target receives exactly the consumed prefix first", c.atFn(dc), "webConn.Write(data) after every dial", "the first bytes sent to the redirect target are not the consumed prefix buf[:i]")
+		c.Check(okCopiesAll, rule, "both relay directions started after the replay", c.atFn(dc), "go Copy(webConn, conn); go Copy(conn, webConn) after every dial", "the redirect does not start both copy directions (with swapped arguments) after replaying the prefix")
 		return
 	}
 	var wr *ssa.Call
@@ -498,6 +535,9 @@ func c09R3(c *Ctx, rule string) {
 						webCalls = append(webCalls, i)
 					}
 				}
+			} else if call.Call.IsInvoke() && call.Call.Method.Name() == "Dial" {
+				// the redirect written in line: the dial of the redirect target is the redirect
+				webCalls = append(webCalls, i)
 			}
 			if calleeName(&call.Call) == "(net.Conn).Close" {
 				recv := call.Call.Value
